@@ -433,7 +433,7 @@ func (w *walker) posText(a *PosArg) string {
 	if a.T.K == KString {
 		return w.plainToken()
 	}
-	return GenScalarText(w.r, a.T.K, 0, 0)
+	return GenScalarText(w.r, a.T.K, a.Base, 0)
 }
 
 func (w *walker) addOcc(o *Opt) {
@@ -534,6 +534,14 @@ func GenScenario(r *Rand, d *Decl, cfg *ScenCfg) *Scenario {
 			tok := w.plainToken()
 			if cfg.HostileRaw && r.Bool() {
 				tok = rawTokens[r.Intn(len(rawTokens))]
+			}
+			if cfg.HostileRaw && len(w.d.Cmds) > 1 && r.Chance(1, 6) {
+				// a word that names a command is an ordinary argument once everything is passed through
+				cm := w.d.Cmds[1+r.Intn(len(w.d.Cmds)-1)]
+				tok = cm.Name
+				if len(w.cur.Subs) > 0 && r.Bool() {
+					tok = w.cur.Subs[r.Intn(len(w.cur.Subs))].Name
+				}
 			}
 			if len(w.pending) > 0 && w.pending[0].T.K != KString {
 				tok = w.posText(w.pending[0]) // typed positional: the verbatim token must be convertible
@@ -697,7 +705,7 @@ func (w *walker) fillPending(pdd, pano bool) {
 		tok = "t1"
 		if a.T.K != KString {
 			for i := 0; i < 50; i++ {
-				tok = GenScalarText(w.r, a.T.K, 0, 0)
+				tok = GenScalarText(w.r, a.T.K, a.Base, 0)
 				if !optionShaped(tok) {
 					break
 				}
